@@ -5,7 +5,8 @@
    THE FAITHFUL MODEL IS THE CODE AFTER THE THREE REPAIRS proposed by this property (/verif/fixes):
      compose-mprocess-mprocess-order-layout          (fix_mm = true,  hss_hss_fixed / shape_mm_fixed)
      compose-mprocess-state-poststate-normalisation  (fix_ps = true)
-     povm-generate-mprocess-mode1-eigenvectors       (gm_mode1_cb)
+     povm-generate-mprocess-mode1-eigenvectors       (gm_mode1_cb: columns of V, conjugate)
+     povm-generate-mprocess-mode1-eigenspace-tolerance  (gm_mode1_cb tol with tol = atol; round 3)
    The definitions of the code AS IT WAS BEFORE each fix are kept, clearly labelled (fix_mm = false: hss_hss_coded /
    shape_mm_coded, fix_ps = false, gm_mode1_cb_prefix); they are what the `_refuted` theorems talk about and what the harness
    uses to recognise a regression to the old behaviour.
@@ -314,38 +315,42 @@ Definition c06_convert_from_cb (B : nat -> CM) (Hcb : CM) : CM :=
 (* mode 0: hs_cb = kron(sqrt_matrix, sqrt_matrix.conjugate()) *)
 Definition gm_mode0_cb (S : CM) : CM := kron d d S (cconj S).
 (* mode 1.  eigh returns eigenvalues w (ascending) and the matrix V whose COLUMN k is the eigenvector of w k.
-   The code walks over the eigenpairs, builds one matrix P per eigenpair, sums the P of ADJACENT EXACTLY equal eigenvalues
-   (spectral_decomp dict, eigenval_prev) and returns  hs_cb = sum_groups eigenval * kron(P_group, conj P_group).
-   [gm1_*] is generic in the per-eigenpair matrix [outer k]:
-     colouter V k = |v_k><v_k|  (column k, with conjugate)  - the code after fix povm-generate-mprocess-mode1-eigenvectors
-                                                                (the docstring's spectral projectors): [gm_mode1_cb];
-     rowouter V k = row_k^T row_k (ROW k, no conjugate)      - AS CODED BEFORE that fix: [gm_mode1_cb_prefix]. *)
+   The code walks over the eigenpairs, builds one matrix P per eigenpair, sums the P of ADJACENT eigenvalues that agree with the FIRST
+   eigenvalue of the current group within tol = Settings.get_atol() (spectral_decomp dict keyed by that first eigenvalue, eigenval_prev)
+   and returns  hs_cb = sum_groups key * kron(P_group, conj P_group).
+   [gm1_*] is generic in the per-eigenpair matrix [outer k] and in the grouping tolerance [tol]:
+     colouter V k = |v_k><v_k|  (column k, with conjugate), tol = atol : the code after the fixes povm-generate-mprocess-mode1-eigenvectors and
+                                  povm-generate-mprocess-mode1-eigenspace-tolerance (the docstring's spectral projectors): [gm_mode1_cb tol];
+     colouter, tol = 0          : AS CODED BEFORE fix ...-eigenspace-tolerance: grouping only of BITWISE equal eigenvalues ( |x| <= 0 <-> x = 0 );
+                                  eigh returns those only for special (diagonal / product) matrices, so a rotated degenerate effect was
+                                  dephased inside its eigenspace: [gm_mode1_cb 0];
+     rowouter V k = row_k^T row_k (ROW k, no conjugate), tol = 0 : AS CODED BEFORE fix ...-eigenvectors: [gm_mode1_cb_prefix]. *)
 Definition rowouter (V : CM) (k : nat) : CM := fun i j => cmul Cx (V k i) (V k j).
 Definition colouter (V : CM) (k : nat) : CM := fun i j => cmul Cx (V i k) (zconj (V j k)).
 Definition cmadd (A B : CM) : CM := fun i j => cadd Cx (A i j) (B i j).
-(* groups: list of (eigenvalue, summed P); built front to back, the current group is the head *)
-Definition gm1_step (outer : nat -> CM) (w : nat -> F) (acc : list (F * CM)) (k : nat) : list (F * CM) :=
+Definition absF' (x : F) : F := if kleb F 0 x then x else copp F x.
+(* groups: list of (key eigenvalue, summed P); built front to back, the current group is the head *)
+Definition gm1_step (outer : nat -> CM) (tol : F) (w : nat -> F) (acc : list (F * CM)) (k : nat) : list (F * CM) :=
   match acc with
-  | (e, P) :: t => if kleb F e (w k) && kleb F (w k) e then (e, cmadd P (outer k)) :: t
+  | (e, P) :: t => if kleb F (absF' (w k - e)) tol then (e, cmadd P (outer k)) :: t
                    else (w k, outer k) :: acc
   | [] => [(w k, outer k)]
   end.
-Definition gm1_groups (outer : nat -> CM) (w : nat -> F) : list (F * CM) := fold_left (gm1_step outer w) (seq 0 d) [].
+Definition gm1_groups (outer : nat -> CM) (tol : F) (w : nat -> F) : list (F * CM) := fold_left (gm1_step outer tol w) (seq 0 d) [].
 Definition gm1_cb_of_groups (gs : list (F * CM)) : CM :=
   fun r c => fold_right (fun g acc => cadd Cx (cmul Cx (zof (fst g)) (kron d d (snd g) (cconj (snd g)) r c)) acc) (c0 Cx) gs.
-(* the code (after the fix) *)
-Definition gm_mode1_cb (w : nat -> F) (V : CM) : CM := gm1_cb_of_groups (gm1_groups (colouter V) w).
+(* the code (tol = atol); tol = 0 is the code before fix povm-generate-mprocess-mode1-eigenspace-tolerance *)
+Definition gm_mode1_cb (tol : F) (w : nat -> F) (V : CM) : CM := gm1_cb_of_groups (gm1_groups (colouter V) tol w).
 (* AS CODED BEFORE fix povm-generate-mprocess-mode1-eigenvectors: zip(eigenvals, eigenvecs) paired eigenvalue k with ROW k of V
    and P = row^T row lacked the conjugate *)
-Definition gm_mode1_cb_prefix (w : nat -> F) (V : CM) : CM := gm1_cb_of_groups (gm1_groups (rowouter V) w).
+Definition gm_mode1_cb_prefix (w : nat -> F) (V : CM) : CM := gm1_cb_of_groups (gm1_groups (rowouter V) 0 w).
 (* the docstring formula without any grouping (rank-one projectors): equal to [gm_mode1_cb] when no two adjacent eigenvalues are
-   exactly equal; induces the same POVM in every case (Proofs/C06_GenMProcess.v) *)
+   grouped; induces the same POVM in every case, but dephases inside a degenerate eigenspace (Proofs/C06_GenMProcess.v) *)
 Definition gm_mode1_cb_doc (w : nat -> F) (V : CM) : CM :=
   fun r c => sumn d (fun k => cmul Cx (zof (w k)) (kron d d (colouter V k) (cconj (colouter V k)) r c)).
 (* matrix_util.truncate_hs(hs, eps), after fix truncate-hs-relative-imag-threshold (C04; identical to the code before that fix whenever
    max |Re hs| <= 1 or no imaginary part lies in [eps, eps * max |Re hs|) - rounding noise of generate_mprocess is ~1e-17 against eps = 1e-13):
    imaginary parts with |im| < eps * max(1, max |Re hs|) dropped, any left -> ValueError (26); then real parts with |re| < eps set to 0 *)
-Definition absF' (x : F) : F := if kleb F 0 x then x else copp F x.
 Fixpoint allbn (k : nat) (p : nat -> bool) : bool := match k with O => true | S j => allbn j p && p j end.
 Fixpoint maxn (k : nat) (f : nat -> F) : F := match k with O => 0 | S j => maxF (maxn j f) (f j) end.
 Definition hs_size (H : CM) : F := maxn (d * d) (fun a => maxn (d * d) (fun b => absF' (re (H a b)))).
